@@ -18,12 +18,13 @@ Fixpoint estates (d : list (position * N * N)) (t : N) : list (spos * color) :=
   match d with [] => [] | e :: r => (abs_pos (fst (fst e)), color_of t) :: estates r (opponent t) end.
 
 (** a heap board refines a specification game: the chain of history nodes, read as (position, turn) states, is the
-    current state followed by [g_past]; clock; full-move number.
+    current state followed by [g_past]; clock (the board carries the specification's clock capped at [max_int]:
+    [clk_rel], GameLemmas2 - the Go counter saturates at math.MaxInt); full-move number.
     (Literally [GameLemmas4.ARel (abs h b) g], see EngineLemmas5.) *)
 Definition GRel (hb : heap * board) (g : gstate) : Prop :=
   let a := abs (fst hb) (snd hb) in
   estates (a_data a) (a_turn a) = (g_pos g, g_turn g) :: g_past g /\
-  Z.of_N (a_noprogress a) = g_clock g /\
+  clk_rel (a_noprogress a) (g_clock g) /\
   a_moves a = g_fullmove g.
 
 Definition ERel (e : engine) (g : gstate) : Prop :=
@@ -37,7 +38,7 @@ Definition EInv (e : engine) : Prop :=
 
 Lemma grel_now h b g : wf h b -> GRel (h, b) g ->
   abs_pos (b_position h b) = g_pos g /\ color_of (b_turn b) = g_turn g /\
-  Z.of_N (b_noprogress h b) = g_clock g /\ b_moves b = g_fullmove g /\
+  clk_rel (b_noprogress h b) (g_clock g) /\ b_moves b = g_fullmove g /\
   estates (tl (data h b)) (opponent (b_turn b)) = g_past g.
 Proof.
   intros Hwf [Hst [Hc Hm]]. cbn [fst snd] in *.
@@ -84,7 +85,7 @@ Proof.
   split; [exact Hwf1|]. split; [|split; [|split]].
   - unfold GRel. cbn [fst snd]. rewrite <- Habs. unfold a_noprogress. cbn [a_data a_turn a_moves hd snd abs].
     unfold g_play. cbn [g_pos g_turn g_past g_clock g_fullmove].
-    rewrite <- Epos, <- Eturn, <- Eclk, <- Emv.
+    rewrite <- Epos, <- Eturn, <- Emv.
     split; [|split].
     + cbn [estates fst]. rewrite (opponent_invol _ Ht), Hst.
       rewrite (move_refines _ _ _ _ HI Hleg Hin Hmv), (color_of_vcol _ Ht), <- Epos, <- Eturn. reflexivity.
